@@ -307,12 +307,15 @@ def entry(chk: Check):
     flags_t = R.self_attr(ek, "flags")
     badf = []
     for fv in range(0, 256):
-        try:
-            got = bool(S.ev(isf, S.Valuation(1, override={flags_t: fv})))
-        except S.EvalError:
-            got = None
-        if got != bool(fv & 1):
-            badf.append(f"flags {fv:#04x}: {got}, specified {bool(fv & 1)}")
+        for low in (0, 3, 6, 0xFF):
+            # the flags are the high byte of the 16-bit type field: drive both through the field itself
+            try:
+                got = bool(S.ev(isf, S.Valuation(1, override={tfield: (fv << 8) | low, flags_t: fv})))
+            except S.EvalError:
+                got = None
+            if got != bool(fv & 1):
+                badf.append(f"flags {fv:#04x}: {got}, specified {bool(fv & 1)}")
+                break
     chk.decide(not badf, "K-FORMULA", "file-object-pointer-flag", chk.func(REL, "HyperVStorageKeyTableEntry.is_file_object_pointer").func,
                "is_file_object_pointer = bit 0 of the flags (evaluated for all 256 flag bytes)" if not badf else "; ".join(badf[:3]))
     inline = [o for o in douts if o[0] == "return" and any(c == isf and not p for c, p in o[2])] or [o for o in douts if o[0] == "return"][-1:]
@@ -327,7 +330,7 @@ def entry(chk: Check):
     bad = []
     for tname, tv in KDT.items():
         for fopv in (False, True):
-            val = S.Valuation(1, override={typ: S.EnumConst(tv), isf: fopv})
+            val = S.Valuation(1, override={typ: S.EnumConst(tv), isf: fopv, tfield: (int(fopv) << 8) | tv})
             hit = None
             for o in outs:
                 if eval_conds(o[2], val):
@@ -381,7 +384,9 @@ def entry(chk: Check):
     if pre:
         n0, t0 = pre[0]
         conds = conds_sym(chk, vctx, n0)
-        tab = reach_table(conds, {"f": isf}, [{"f": False}, {"f": True}])
+        # the flag is derived from the type field: set both, so that any spelling of the test follows
+        tab = [bool(eval_conds([(c, p) for c, p in conds if S.contains(c, lambda x: x == tfield or x == isf)],
+                               S.Valuation(1, override={isf: f_, tfield: (int(f_) << 8) | KDT["String"], typ: S.EnumConst(KDT["String"])}))) for f_ in (False, True)]
         up = find(t0[2][2], lambda x: x[0] == "call" and x[1] == "ext:struct.unpack" and x[2][0] == S.C("<I"))
         okpre = tab == [True, False] and bool(up) and S.equiv(t0[2][2], S.op("add", ("sub", up[0], S.C(0)), S.C(4)), n=10).equal is True
     pre = [x[0] for x in pre]
